@@ -70,6 +70,12 @@ def add_with_id(ctx, rule):
     ctx.check(len(pushes) == 1 and pushes[0].startswith("Vec::push(arg1.tokens,RawToken{"), rule, fn, "push", "the token is appended to the builder's tokens")
     rets = [q.shape(b.expr_of_rvalue(s["rv"]), roles) for bi, si, s, it in b.locations() if not it and s["k"] == "assign" and s["place"]["l"] == 0 and not s["place"]["p"]]
     ctx.check(len(rets) == 1 and rets[0].startswith("RawToken{"), rule, fn, "returns-token", "the token (with the interned ids) is returned")
+    rb = ctx.body(B + "add_raw")
+    rl = [q.shape(rb.expr_of_rvalue(s["rv"])) for bi, si, s, it in rb.locations() if not it and s["k"] == "assign" and s["rv"]["k"] == "agg" and s["rv"].get("adt") == "types::RawToken"]
+    ctx.check(rl == ["RawToken{dst_line:arg2,dst_col:arg3,src_line:arg4,src_col:arg5,src_id:Option::unwrap_or(arg6,Not(0)),name_id:Option::unwrap_or(arg7,Not(0)),is_range:arg8}"], rule, rb.path, "add_raw:fields",
+              "add_raw stores the given positions and ids (absent ids as the tombstone !0)", detail=str(rl)[:300])
+    rp = [q.shape(rb.expr_of_call(t)) for bi, t in q.calls_to(rb, "Vec::<T, A>::push")]
+    ctx.check(len(rp) == 1 and rp[0].startswith("Vec::push(arg1.tokens,RawToken{"), rule, rb.path, "add_raw:push", "... and appends the token")
     ab = ctx.body(B + "add")
     calls = [q.shape(ab.expr_of_call(t)) for bi, t in ab.calls()]
     ctx.check(calls == ["SourceMapBuilder::add_with_id(arg1,arg2,arg3,arg4,arg5,arg6,Not(0),arg7,arg8)"], rule, ab.path, "add", "add forwards its arguments positionally with no old id", detail=str(calls))
